@@ -18,7 +18,8 @@ from vlib import orbref, wbsys
 
 PROPERTY_ID = "C21"
 RULE = ("sub 'shells': ';'-joined lists of full shells s,p,d,f, two O(3) elements g1,g2 (random Euler x optional "
-        "inversion, the 48 cubic and 24 hexagonal operations, optionally conjugated by a global rotation), optional random "
+        "inversion, the 48 cubic and 24 hexagonal operations, optionally conjugated by a global rotation; g2 may also be a "
+        "neighbour of g1 0.03..0.3 rad away, well outside the cache tolerance), optional random "
         "orthonormal local bases B1,B2,B3 (proper or improper); sub 'hybrids': hybrid sets (optionally joined with full "
         "shells) with effective rotations from the invariance group of the span (axial groups, Oh, O(3)) or arbitrary; "
         "sub 'dwann': crystal = wbsys lattice + 1..3 atoms, space group found by irrep/spglib, 1..2 projections (site, "
